@@ -22,6 +22,8 @@ import (
 	"strings"
 	"time"
 
+	t "github.com/google/wuffs/lang/token"
+
 	"wvh/hlib"
 )
 
@@ -556,5 +558,41 @@ func releasePart(r *hlib.Run, sb *hlib.StdBuild) {
 			r.Nontrivial("release:" + strings.Join(toks, " "))
 		}
 		os.RemoveAll(dir)
+	}
+}
+
+// ---------------------------------------------------------------- QQID order
+
+// qqidPart: t.QQID.LessThan (the comparator of the per-interface sort in check.go Check and
+// of the pick-the-largest loop) against the model's order on keys (Det.qqidLess).
+func qqidPart(r *hlib.Run) {
+	rd := r.Rand.Fork()
+	n := 300
+	if r.Thorough {
+		n = 5000
+	}
+	pool := []uint32{0, 1, 2, 3, 0x7FFFFFFF, 0x80000000, 0xFFFFFFFE, 0xFFFFFFFF}
+	pick := func() uint32 {
+		if rd.Chance(3, 4) {
+			return pool[rd.Intn(len(pool))]
+		}
+		return uint32(rd.Uint64())
+	}
+	for i := 0; i < n; i++ {
+		x := t.QQID{t.ID(pick()), t.ID(pick()), t.ID(pick())}
+		y := t.QQID{t.ID(pick()), t.ID(pick()), t.ID(pick())}
+		if rd.Chance(1, 3) {
+			y[0] = x[0]
+			if rd.Bool() {
+				y[1] = x[1]
+			}
+		}
+		lt, gt := x.LessThan(y), y.LessThan(x)
+		r.Op(fmt.Sprintf("qqidlt %d %d %d %d %d %d", x[0], x[1], x[2], y[0], y[1], y[2]), fmt.Sprint(lt))
+		// the sort lemma needs a strict total order: exactly one of <, >, = holds
+		if (lt && gt) || (!lt && !gt && x != y) || (x == y && (lt || gt)) {
+			r.Fail("qqid:not-a-total-order", fmt.Sprintf("QQID.LessThan is not a strict total order on %v, %v (lt=%v gt=%v)", x, y, lt, gt), fmt.Sprintf("%v %v", x, y))
+		}
+		r.Count(fmt.Sprintf("qqid:lt=%v", lt))
 	}
 }
